@@ -156,6 +156,22 @@ def gen_cases(seed, tier, insts):
                     c = Case(inst, ext, strides=st, stream='wrap-congruent-gap'); c.idx_complete = True
                     c.ops = [('span', None), ('strides', None), ('flags', None)] + [('off', C.fmt(i)) for i in all_indices(ext)]
                     cases.append(c)
+    # ---- layout_stride over an EMPTY index space with several zero / one extents whose strides are at the top of the type: admissible
+    #      (zero extents count as one: the span is 1 + the contribution of the remaining dimensions), yet every discarded partial sum is huge
+    for t in C.ITYPES:
+        H = C.hi(t)
+        for r in (2, 3, 4):
+            inst = dyn.get(('stride', t, r))
+            if inst is None: continue
+            for _ in range(6 if not thorough else 40):
+                ext = [rnd.choice([0, 0, 1]) for _ in range(r)]
+                if ext.count(0) < 2: ext[0] = ext[-1] = 0
+                k = rnd.randrange(r)
+                if rnd.random() < 0.5: ext[k] = rnd.choice([2, 3])
+                st = [rnd.choice([H, H - 1, H // 2 + 1, H // 2 + 2]) if e <= 1 else 1 for e in ext]
+                c = Case(inst, ext, strides=st, stream='empty-huge-strides')
+                c.ops = [('span', None), ('strides', None), ('stridesarr', None), ('flags', None), ('cvs', None)]
+                cases.append(c)
     # ---- padding argument of a NARROWER type than index_type while the extent to pad is beyond that type's range
     for t, pt, big in (('i32', 'u8', 300), ('i32', 'i16', 40000), ('u32', 'u8', 257), ('i64', 'i32', 2 ** 32 + 5), ('u64', 'i16', 70000), ('u16', 'u8', 1000), ('i64', 'u8', 2 ** 40 + 3)):
         for r in (2, 3):
